@@ -53,7 +53,7 @@ func runR022(c *Ctx) {
 		nret := 0
 		// states: 0 start, 1 notified, 2 sync called (pending verdict; remembers which call in cur), 3 sync ok, 4 completed
 		var cur ssa.Value
-		explorePaths(&pathSpec{Fn: fn, Init: 0,
+		explorePaths(&pathSpec{Fn: fn, Init: 0, Inline: inlineOwnMethods,
 			Step: func(st int, ev pathEvent) int {
 				if ev.Ins != nil {
 					cc := callOf(ev.Ins)
